@@ -354,4 +354,8 @@ def run(repo: Repo, rep: Report, tier: str) -> None:
     from .c04 import layout_fold_rule
 
     layout_fold_rule(repo, rep, "C06.R8", 3 if tier == "thorough" else 2, part="struct")
+    from .c04 import struct_rw_fold_rule
+
+    struct_rw_fold_rule(repo, rep, "C06.R9", 3 if tier == "thorough" else 2)
+
 
